@@ -248,7 +248,9 @@ pub struct C15Pair {
     pub counter: u64,
     pub stream: u64,
     /// 0 = identical, 1..=12 = differ in exactly that word (1..8 key words, 9..12 d words),
-    /// 13 = differ in counter low word only via refills, 14 = unrelated
+    /// 13 = differ in counter low word only via refills, 14 = unrelated,
+    /// 15 = two key words (chosen by `delta`) xored with the same value, 16 = all four words of one key half
+    /// xored with the same value, 17 = two key words swapped, 18 = both stream-id words xored with the same value
     pub diff: u8,
     pub delta: u32,
     pub other: HexBytes,
@@ -256,7 +258,7 @@ pub struct C15Pair {
 }
 
 pub fn c15_pair_strategy() -> BoxedStrategy<C15Pair> {
-    (bytes_n(32), value_mix(), any::<u64>(), 0u8..=14, prop_oneof![any::<u32>(), (0u32..32).prop_map(|b| 1 << b)], bytes_n(48), 0u8..3)
+    (bytes_n(32), value_mix(), any::<u64>(), 0u8..=18, prop_oneof![any::<u32>(), (0u32..32).prop_map(|b| 1 << b)], bytes_n(48), 0u8..3)
         .prop_map(|(key, counter, stream, diff, delta, other, refills)| C15Pair {
             key, counter, stream, diff, delta: if delta == 0 { 1 } else { delta }, other, refills,
         })
@@ -278,6 +280,20 @@ pub fn c15_pair_check(c: &C15Pair, info: &mut CaseInfo) -> Result<(), Fail> {
         10 => ctr_b ^= (c.delta as u64) << 32,
         11 => sid_b ^= c.delta as u64,
         12 => sid_b ^= (c.delta as u64) << 32,
+        15 | 16 | 17 => {
+            let mut w: Vec<u32> = (0..8).map(|i| u32::from_le_bytes(key_b[4 * i..4 * i + 4].try_into().unwrap())).collect();
+            let i = (c.delta as usize >> 3) % 8;
+            let j = (i + 1 + (c.delta as usize >> 6) % 7) % 8;
+            match c.diff {
+                15 => { w[i] ^= c.delta; w[j] ^= c.delta; }
+                16 => { let h = 4 * (i / 4); for k in h..h + 4 { w[k] ^= c.delta; } }
+                _ => { w.swap(i, j); }
+            }
+            for k in 0..8 {
+                key_b[4 * k..4 * k + 4].copy_from_slice(&w[k].to_le_bytes());
+            }
+        }
+        18 => sid_b ^= (c.delta as u64) | ((c.delta as u64) << 32),
         _ => {
             key_b.copy_from_slice(&c.other.0[..32]);
             ctr_b = u64::from_le_bytes(c.other.0[32..40].try_into().unwrap());
@@ -319,7 +335,7 @@ pub fn c15_pair_check(c: &C15Pair, info: &mut CaseInfo) -> Result<(), Fail> {
         Ok(())
     });
     info.label(format!("diff={}", c.diff));
-    info.nontrivial = (1..=13).contains(&c.diff);
+    info.nontrivial = (1..=13).contains(&c.diff) || (15..=18).contains(&c.diff);
     match r {
         Err(p) => Err(fail("pair:PANIC", p)),
         Ok(r) => r,
@@ -339,7 +355,7 @@ pub fn run_c15(ctx: &mut Ctx) {
     ctx.run("set-get-sequences", n, c15_seq_strategy(), c15_seq_check);
     let n = ctx.count(400_000, 4_000_000);
     ctx.run("stream-eq-pairs", n, c15_pair_strategy(), c15_pair_check);
-    for d in 0..=14 {
+    for d in 0..=18 {
         ctx.required_classes.push(format!("diff={}", d));
     }
 }
